@@ -39,7 +39,7 @@ ASSUMPTIONS = [
     'row dicts always name the last column (shape is inferred from keys)',
 ]
 ANCHORS = ['Table._to_sparse', 'coo_arrays_to_sparse', 'list_list_to_sparse', 'nparray_to_sparse', 'list_nparray_to_sparse', 'list_sparse_to_sparse', 'list_dict_to_sparse', 'dict_to_sparse', 'Table.from_adjacency', 'parse_uc', '_from_uc', 'errcheck']
-REQUIRED = ['form_rows_of_mixed_dtype', 'adjacency_ids_starting_with_hash', 'families', 'forms_compared', 'form_dict_unordered',
+REQUIRED = ['uc_hits_on_seed_reads', 'form_rows_of_mixed_dtype', 'adjacency_ids_starting_with_hash', 'families', 'forms_compared', 'form_dict_unordered',
             'form_triples_with_zeros', 'form_bool', 'form_int',
             'adjacency_cases', 'uc_cases', 'uc_cli_cases',
             'malformed_duplicate_id', 'malformed_id_count',
@@ -412,32 +412,52 @@ def run_uc(ctx, r, index):
         f = [tp, '0', '100', '99.0', '+', '0', '0', '100M', query, target]
         return '\t'.join(f)
     lines.append('# uc file written by vm')
+    # reads that found no earlier cluster and became seeds themselves; hits
+    # may name them as target wherever their own S record stands in the file
+    # (files get sorted by record type, merged, concatenated)
+    sreads = []
+    for k in range(r.randint(0, 3)):
+        sreads.append('%s_%d' % (r.choice(samples), 1000 + k))
+    recs = []                       # (type, query label, target label)
+    for sr in sreads:
+        for _ in range(r.choice([1, 1, 1, 2])):     # seldom listed twice
+            recs.append(('S', sr + r.choice(['', ' d', ' len_250']), '*'))
     for _ in range(r.randint(1, 14)):
         tp = r.choice(['S', 'H', 'H', 'H', 'C', 'N', 'L', '', '#x'])
         samp = r.choice(samples)
         qn += 1
         q = '%s_%d' % (samp, qn)
+        descr = r.choice(['', '', ' extra description',
+                          ' FLP3FBN01 orig_bc=ACGT new_bc=ACG bc_diffs=0',
+                          ' read_1 len_250'])
+        if tp in ('', '#x'):
+            recs.append((tp, None, None))
+        elif tp == 'S':
+            recs.append(('S', q + (descr or ' d'), '*'))
+        elif tp == 'H':
+            tgt = r.choice(seeds + sreads)
+            recs.append(('H', q + descr, tgt + ' descr_x'))
+        elif tp == 'L':
+            recs.append(('L', q, r.choice(seeds)))
+        else:
+            recs.append((tp, q, r.choice(seeds)))
+    r.shuffle(recs)
+    if any(t_ == 'H' and g.split(' ')[0] in sreads for t_, q_, g in recs
+           if t_ == 'H'):
+        ctx.count('uc_hits_on_seed_reads')
+    for tp, qlab, tlab in recs:
         if tp == '':
             lines.append('')
             continue
         if tp == '#x':
             lines.append('#comment\tline')
             continue
-        descr = r.choice(['', '', ' extra description',
-                          ' FLP3FBN01 orig_bc=ACGT new_bc=ACG bc_diffs=0',
-                          ' read_1 len_250'])
-        if tp == 'S':
-            lines.append(field_line('S', q + (descr or ' d'), '*'))
-            obs = q
-        elif tp == 'H':
-            obs = r.choice(seeds)
-            lines.append(field_line('H', q + descr, obs + ' descr_x'))
-        elif tp == 'L':
-            obs = r.choice(seeds)
-            lines.append(field_line('L', q, obs))
-        else:
-            lines.append(field_line(tp, q, r.choice(seeds)))
+        lines.append(field_line(tp, qlab, tlab))
+        if tp not in ('S', 'H', 'L'):
             continue
+        qid = qlab.split(' ')[0]
+        samp = qid.rsplit('_', 1)[0]
+        obs = qid if tp == 'S' else tlab.split(' ')[0]
         if obs not in obs_order:
             obs_order.append(obs)
         if tp in ('S', 'H'):
